@@ -216,3 +216,31 @@ func Symbolic() bool           { return false }
 func LimitWrites(fd int, n int) {}
 func Note(s string)            {}
 func Stop()                    { panic(stopT{}) }
+
+// PutFile writes a file the code under test will read.
+func PutFile(name string, content []byte) {
+	if err := os.WriteFile(name, content, 0o644); err != nil {
+		panic(err)
+	}
+}
+
+// TempDir returns a scratch directory (removed by the replay driver's temp dir clean-up).
+func TempDir() string {
+	d, err := os.MkdirTemp("", "verifrt-")
+	if err != nil {
+		panic(err)
+	}
+	return d
+}
+
+// RunUntilBlocked runs a goroutine body until it parks (true) or returns (false).
+func RunUntilBlocked(f func()) bool {
+	done := make(chan struct{})
+	go func() { defer close(done); f() }()
+	select {
+	case <-done:
+		return false
+	case <-time.After(150 * time.Millisecond):
+		return true
+	}
+}
